@@ -1181,7 +1181,11 @@ func (p *Parser) parseSimpleStmt(forIn bool) Stmt {
 					p.errorExpected(x[1].Pos(), "identifier")
 					value = &Ident{Name: "_", NamePos: x[1].Pos()}
 				}
-				//TODO: no more than 2 idents
+			default:
+				// more than two loop variables: report it and keep the AST complete
+				p.errorExpected(x[0].Pos(), "1 or 2 identifiers")
+				key = &Ident{Name: "_", NamePos: x[0].Pos()}
+				value = &Ident{Name: "_", NamePos: x[0].Pos()}
 			}
 			return &ForInStmt{
 				Key:      key,
